@@ -81,6 +81,9 @@ def make_inputs(task, variant, rng, d):
                          max_scalar=4, roi=(8, 9))
         m["meta"]["experiment"]["time"] = t
         m["meta"]["experiment"]["date"] = "2020-01-01"
+        # user-defined metadata with non-string values (written attribute by attribute)
+        m["meta"]["user"] = {"count": 4, "ratio": 0.25, "window": np.array([0.0, 100.5]),
+                             "flag": True, "note": "user note"}
         return m
     if task == "tdms2rtdc":
         from vmon.work.c02 import tdms_fixture
